@@ -127,6 +127,9 @@ def ops_for(spec, rnd):
         for n in spec["networks"]:
             O.append((f"{up}.network={n}", lambda b, up=up, n=n: setattr(b[up], "network", b[n]), lambda m: None, "assign-object",
                       lambda b, up=up, n=n: [b[up].network, b[n]]))
+        # the object already linked is assigned again (changes nothing), typically followed by a real re-assignment
+        O.append((f"{up}.network=same", lambda b, up=up: setattr(b[up], "network", raw(b[up].network)), lambda m: None, "same-object"))
+        O.append((f"{up}.usage_journey=same", lambda b, up=up: setattr(b[up], "usage_journey", raw(b[up].usage_journey)), lambda m: None, "same-object"))
         key = (up, "devices")
         for d in spec["devices"]:
             O.append((f"{up}.devices.append({d})", lambda b, up=up, d=d: b[up].devices.append(b[d]), lambda m, key=key, d=d: m[key].append(d), "append"))
@@ -134,6 +137,7 @@ def ops_for(spec, rnd):
         for sv in spec["servers"]:
             O.append((f"{j}.server={sv}", lambda b, j=j, sv=sv: setattr(b[j], "server", b[sv]), lambda m: None, "assign-object",
                       lambda b, j=j, sv=sv: [b[j].server, b[sv]]))
+        O.append((f"{j}.server=same", lambda b, j=j: setattr(b[j], "server", raw(b[j].server)), lambda m: None, "same-object"))
     return O
 
 
@@ -341,6 +345,13 @@ def run(tier, seed, procs=16):
     pairs = [(i, j) for i in own for j in own]
     if tier == "quick": pairs = [p for k, p in enumerate(pairs) if (k + seed) % 3 == 0]
     items += [("two_independent_chains", spec, p, seed) for p in pairs]
+    for tname in ("two_independent_chains", "two_servers_repeated_job"):
+        spec = T[tname]; ops = ops_for(spec, None)
+        same = [i for i, o in enumerate(ops) if o[3] == "same-object"]
+        for i in same:
+            slot = ops[i][0].split("=")[0]
+            for j, o in enumerate(ops):
+                if o[3] == "assign-object" and o[0].split("=")[0] == slot: items.append((tname, spec, (i, j), seed))
     res = H.run_parallel(_history, items, procs)
     res += [_two_systems((t,)) for t in ("network", "job", "journey", "server")]
     res += [_delete_owner((k,)) for k in ("journey-with-repeated-step", "journey-with-distinct-steps", "step-with-job-appended-twice", "step-with-repeated-job-at-construction")]
